@@ -15,4 +15,6 @@ PROPERTY AddCellwise
 PROPERTY AddOnlyEqualEdges
 PROPERTY AddPure
 PROPERTY AddNegZero
+PROPERTY AddTolDoc
+PROPERTY RuleAgrees
 CHECK_DEADLOCK FALSE
